@@ -561,6 +561,11 @@ func vfC05Enabled(hist []vfOp) []vfOp {
 		out = append(out, vfOp{Op: "attr", Path: "/x", Name: "a", Value: "i32a"})
 		out = append(out, vfOp{Op: "attr", Path: "/x", Name: "big", Value: "s120"})
 		out = append(out, vfOp{Op: "attr", Path: "/x", Name: fmt.Sprintf("n%02d", nx), Value: "i64"})
+		if nx > 0 {
+			// size-changing overwrite of the attribute added last (in dense storage: the object
+			// stored last in the heap)
+			out = append(out, vfOp{Op: "attr", Path: "/x", Name: fmt.Sprintf("n%02d", nx-1), Value: "s40"})
+		}
 		var names []string
 		for n := range attrs["/x"] {
 			names = append(names, n)
